@@ -1,8 +1,8 @@
 package rules
 
 import (
-	"go/types"
 	"go/token"
+	"go/types"
 	"strings"
 
 	"golang.org/x/tools/go/ssa"
@@ -20,7 +20,7 @@ func C10(r *core.Run) {
 		"(R10.2) every bolt bucket lookup/creation/deletion by a request-supplied name is dominated by a rejecting comparison with the internal bookkeeping bucket name; " +
 		"(R10.3) every SingleBucketBackend method rejects other bucket names before touching the filesystem; (R10.4) every object-level method of MultiBucketBackend first establishes that the bucket directory exists; " +
 		"(R10.5) the metadata file name contains a hash over the unmodified key (distinct keys ⇒ distinct metadata files); (R10.6) routing passes bucket and key to the handlers unchanged; " +
-		"(R10.7) recursive removal (RemoveAll) is applied only to bucket-level paths, never to a path built from an object key; (R10.8) every bolt record operation is keyed by exactly the addressed name. (R10.9) a bolt write keyed by a key parameter goes to the bucket parameter paired with it; (R10.10) the multi-bucket backend validates bucket names before using them as paths and a listing prefix directory is contained; (R10.11) a file the fs backends name themselves is only ever created exclusively — no internal name shadows a key; (R10.12) the keys of a multi-object delete reach the backend exactly as the request body named them; (R01.6/R01.9) stored metadata maps of other objects are never written. (R16.3, shared) the host middlewares prepend the bucket to the path and change nothing else of it: no cleaning that lets a key leave its bucket."
+		"(R10.7) recursive removal (RemoveAll) is applied only to bucket-level paths, never to a path built from an object key; (R10.8) every bolt record operation is keyed by exactly the addressed name. (R10.9) a bolt write keyed by a key parameter goes to the bucket parameter paired with it; (R10.10) the multi-bucket backend validates bucket names before using them as paths and a listing prefix directory is contained; (R10.11) a file the fs backends name themselves is only ever created exclusively — no internal name shadows a key; (R10.12) the keys of a multi-object delete reach the backend exactly as the request body named them; (R01.6/R01.9) stored metadata maps of other objects are never written. (R16.3, shared) the host middlewares prepend the bucket to the path and change nothing else of it: no cleaning that lets a key leave its bucket. (R02.12/R02.9, shared) the fs delete path works on the addressed bucket/key path only. (R10.13) baseFs is read only in construction; an own-named scratch file is removed only after its exclusive create succeeded; an upload id is honoured only for its own bucket and key."
 	r.NotDecided = "non-interference as a whole-store statement, percent-encoding, very long segments, what the OS does with odd names, keys that are path-prefixes of other keys on the fs backends (a/b vs a/b/c is refused by the OS, not by a rule)"
 	ctx := oblig.NewCtx(r.P)
 	rule101(r, ctx)
@@ -35,7 +35,10 @@ func C10(r *core.Run) {
 	rule1010(r)
 	rule1011(r)
 	rule1012(r)
+	rule1013(r)
 	rule163(r, hostMiddlewares(r))
+	rule0212(r)
+	rule029(r)
 	rule016(r, "C10")
 	rule019(r)
 }
@@ -1080,4 +1083,122 @@ func rule1012(r *core.Run) {
 		r.Unresolved("R10.12: %d multi-delete backend calls found in deleteMulti (expected 2)", n)
 	}
 	r.Held("R10.12", key(name, "no rewriting of decoded ids"), "", sprintf("%d stores into ObjectID fields outside literals", nSt))
+}
+
+// rule1013 — who may read which filesystem handle; scratch files are removed
+// only after they were created; uploads are addressed by (bucket, key, id).
+func rule1013(r *core.Run) {
+	r.Rule("R10.13", "MultiBucketBackend.baseFs (the directory that holds the backend's own 'buckets' and 'metadata' directories) is read only while the backend is constructed: a bucket-level operation on it would treat the backend's own directory names as bucket names; every Remove of a path the fs backends chose themselves is reachable only after the exclusive create of that same path succeeded (a cleanup registered before the name was claimed removes somebody else's file); uploader.getUnlocked hands out an upload only on the path where both its bucket and its object were compared equal with the addressed ones")
+	// baseFs
+	n := 0
+	for _, fn := range r.P.FuncsOfPkg("s3afero") {
+		f := fn
+		core.Instrs(f, func(in ssa.Instruction) {
+			fa, ok := in.(*ssa.FieldAddr)
+			if !ok || r.P.FieldName(fa) != "s3afero.MultiBucketBackend.baseFs" || fa.Referrers() == nil {
+				return
+			}
+			for _, u := range *fa.Referrers() {
+				if ld, ok := u.(*ssa.UnOp); ok && ld.Op == token.MUL {
+					n++
+					r.Check(isConstruction(r, f), "R10.13", key(fname(r, f), "baseFs read only in construction", sprintf("#%d", n)), pos(r, ld), "construction only",
+						"the multi-bucket backend uses baseFs — the directory holding its own 'buckets' and 'metadata' directories — while serving: those names are then mistaken for buckets (or buckets are looked up in the wrong place)")
+				}
+			}
+		})
+	}
+	r.Held("R10.13", key("s3afero.MultiBucketBackend", "baseFs reads enumerated"), "", sprintf("%d reads", n))
+	// scratch removal after claim
+	const oCREATE, oEXCL = 0x40, 0x80
+	for _, fn := range r.P.FuncsOfPkg("s3afero") {
+		f := fn
+		core.Instrs(f, func(in ssa.Instruction) {
+			c, ok := in.(ssa.CallInstruction)
+			if !ok || !c.Common().IsInvoke() {
+				return
+			}
+			cn := r.P.CalleeName(c)
+			if cn != "invoke:github.com/spf13/afero.Fs.Remove" && cn != "invoke:github.com/spf13/afero.Fs.RemoveAll" {
+				return
+			}
+			arg := c.Common().Args[0]
+			if k, ok := core.ConstString(arg); ok && (k == "." || k == "/" || k == "") {
+				return // the root of the filesystem itself (force-delete of the single bucket)
+			}
+			ps := r.P.SliceOf(arg, core.SliceOpts{Depth: -1, BindParams: true})
+			for _, l := range ps.LeafList("param:") {
+				for _, v := range ps.LeafVals[l] {
+					if b, ok := v.Type().Underlying().(*types.Basic); ok && b.Kind() == types.String {
+						return // a path the caller named
+					}
+				}
+			}
+			if ps.HasPrefix("field:s3afero.metaPath") || ps.HasPrefix("field:gofakes3.") {
+				return
+			}
+			// own-chosen name: the claim must come first
+			cell := func(v ssa.Value) ssa.Value {
+				if u, ok := v.(*ssa.UnOp); ok && u.Op == token.MUL {
+					return u.X
+				}
+				return v
+			}
+			claimed := false
+			core.Instrs(f, func(x ssa.Instruction) {
+				oc, ok := x.(*ssa.Call)
+				if !ok || r.P.CalleeName(oc) != "invoke:github.com/spf13/afero.Fs.OpenFile" {
+					return
+				}
+				fl, ok := core.ConstInt(oc.Call.Args[1])
+				if !ok || fl&oEXCL == 0 || fl&oCREATE == 0 || cell(oc.Call.Args[0]) != cell(arg) {
+					return
+				}
+				if core.CheckedBefore(oc, in) {
+					claimed = true
+				}
+			})
+			r.Check(claimed, "R10.13", key(fname(r, f), "own-named file removed only after it was claimed", strings.TrimPrefix(cn, "invoke:github.com/spf13/afero.Fs.")), pos(r, in), "Remove after a checked exclusive create of the same path",
+				"a file under a name of the backend's own choosing is removed (or its removal deferred) before the backend created it exclusively: a file of that name that was already there — an object, in the single-bucket backend — is deleted")
+		})
+	}
+	// getUnlocked
+	if gu := mustFunc(r, "gofakes3.(*uploader).getUnlocked"); gu != nil {
+		bp, op := paramNamed(gu, "bucket"), paramNamed(gu, "object")
+		var bt, ot []*ssa.BinOp
+		core.Instrs(gu, func(in ssa.Instruction) {
+			b, ok := in.(*ssa.BinOp)
+			if !ok || (b.Op != token.EQL && b.Op != token.NEQ) {
+				return
+			}
+			xs := r.P.SliceOfMany([]ssa.Value{b.X, b.Y}, core.SliceOpts{Depth: -1})
+			if bp != nil && xs.HasValue(bp) && xs.Has("field:gofakes3.multipartUpload.Bucket") {
+				bt = append(bt, b)
+			}
+			if op != nil && xs.HasValue(op) && xs.Has("field:gofakes3.multipartUpload.Object") {
+				ot = append(ot, b)
+			}
+		})
+		okAddr := len(ot) > 0
+		for _, ret := range core.Returns(gu) {
+			ev := returnedErrors(gu)[ret]
+			if ev == nil || !definitelyNil(r, core.BlockLocalLoad(ev)) {
+				continue
+			}
+			// assuming the object differs, success must be unreachable; same for the bucket
+			for _, tests := range [][]*ssa.BinOp{ot, bt} {
+				if len(tests) == 0 {
+					continue
+				}
+				assume := map[ssa.Value]bool{}
+				for _, t := range tests {
+					assume[t] = t.Op == token.NEQ
+				}
+				if core.ReachableFromEntryAssuming(ret, assume) {
+					okAddr = false
+				}
+			}
+		}
+		r.Check(okAddr, "R10.13", key(fname(r, gu), "upload handed out only to its own bucket and key"), r.P.Pos(gu.Pos()), "success unreachable when Object (or Bucket) differs",
+			"getUnlocked can succeed for an upload whose object (or bucket) differs from the addressed one: with another key's upload id a part, abort or complete lands on that other key's upload")
+	}
 }
